@@ -8,7 +8,8 @@ constraint (or tightens a bound it must not tighten)."""
 import ast
 
 from ..core import RuleResult, need
-from ..astutil import src, call_attr, call_name, is_name, walk_no_nested, compare_parts
+from ..astutil import src, call_attr, call_name, is_name, walk_no_nested, compare_parts, path_of
+from ..cfg import cfg_of
 from .c05 import inexact_sources
 
 FILES = ('prover/omega.py', 'prover/simplex.py', 'prover/simplex_strict.py')
@@ -358,5 +359,63 @@ def rule_o7(repo):
     return res
 
 
+def rule_o8(repo):
+    """The constraint database files a factoid under the *hash* of its key.  A bucket can hold factoids with other keys
+    (hash((1, -1)) == hash((1, -2)) in CPython: -1 and -2 have the same hash), so whatever is concluded from an entry of
+    a bucket - redundant, contradictory, found - is concluded only after the entry's key was compared with the key that
+    is looked for.  Without the comparison a factoid that merely shares the bucket is taken for the opposite bound and a
+    system with an integer solution is answered UNSAT."""
+    from ..flow import flow_of
+    res = RuleResult('C16.O8', 'an entry of a hash bucket of the constraint database is used only after its key was compared', floor=3)
+    m_ = repo.module('prover/omega.py')
+    for f in m_.all_funcs:
+        if f.parent is not None:
+            continue
+        cfg, flow = None, None
+        for lp in [n for n in ast.walk(f.node) if isinstance(n, ast.For) and isinstance(n.target, ast.Name)]:
+            flow = flow or flow_of(f.node)
+            it = flow.inline(lp.iter)
+            if not (isinstance(it, ast.Subscript) and any(isinstance(c, ast.Call) and call_name(c) == 'hash' for c in ast.walk(flow.inline(it.slice)))):
+                continue
+            cfg = cfg or cfg_of(f.node)
+            v = lp.target.id
+            head = [n for n in cfg.nodes_of_kind('iter') if n.ast is lp]
+            if not head:
+                continue
+
+            def key_compared(e, pol, v=v):
+                cp = compare_parts(e)
+                if not cp:
+                    return False
+                ks = [path_of(x) or '' for x in (cp[1], cp[2])]
+                mine = any(k in (v + '.factoid.key', v + '.key') for k in ks)
+                return mine and ((cp[0] is ast.Eq and pol) or (cp[0] is ast.NotEq and not pol))
+            edges = cfg.establishing_edges(key_compared)
+            inside = cfg.reach_from([b for b, l in head[0].succ if l == 'loop'], skip_nodes=head)
+            uses = [n for n in cfg.nodes if n.id in inside and n.kind in ('stmt', 'return') and isinstance(n.ast, (ast.Assign, ast.AugAssign, ast.Return, ast.Expr)) and
+                    not (isinstance(n.ast, ast.Assign) and isinstance(n.ast.value, (ast.Attribute, ast.Name, ast.Tuple)) and
+                         all(isinstance(t, (ast.Name, ast.Tuple)) for t in n.ast.targets) and path_base_is(n.ast.value, v) and
+                         not _read_outside(f.node, lp, n.ast.targets))]
+            bad = [u for u in uses if cfg.path_avoiding(u, skip_edges=edges, start=head[0]) is not None]
+            res.add('prover/omega.py :: %s :: bucket(%s)' % (f.qualname, src(it, 40)), not bad,
+                    'every conclusion from an entry follows a comparison of its key' if not bad else
+                    'line %d `%s` is reached for an entry of the bucket `%s` whose key was not compared: entries of a bucket agree on the hash of the key '
+                    'only' % (bad[0].lineno, src(bad[0].ast, 50), src(it, 40)), 'prover/omega.py:%d' % (bad[0] if bad else lp).lineno)
+    return res
+
+
+def _read_outside(funcnode, loop, targets):
+    """one of the assigned names is read outside the loop: the assignment is a conclusion, not a local abbreviation"""
+    names = {x.id for t in targets for x in ast.walk(t) if isinstance(x, ast.Name)}
+    inside = {id(x) for x in ast.walk(loop)}
+    return any(isinstance(x, ast.Name) and isinstance(x.ctx, ast.Load) and x.id in names and id(x) not in inside for x in ast.walk(funcnode))
+
+
+def path_base_is(e, v):
+    """e only takes the entry apart (`d, f = v.deriv, v.factoid`)"""
+    names = {x.id for x in ast.walk(e) if isinstance(x, ast.Name)}
+    return names == {v}
+
+
 def rules(repo):
-    return [rule_o1(repo), rule_o2(repo), rule_o3(repo), rule_o4(repo), rule_o5(repo), rule_o6(repo), rule_o7(repo)]
+    return [rule_o1(repo), rule_o2(repo), rule_o3(repo), rule_o4(repo), rule_o5(repo), rule_o6(repo), rule_o7(repo), rule_o8(repo)]
